@@ -1531,6 +1531,11 @@ def rule_round5(repo, rep):
     """(r) assertions that a small slip turns into a crash for a class of valid models."""
     from ..exprnorm import comparison
 
+    rep.clause("C13-s", "after a Reshape has been bypassed no later rewrite re-derives an operator's OFM shape from the re-shaped tensor (the command generators assert that IFM, IFM2 and OFM shapes of an "
+               "operator are consistent: an inconsistent view aborts the compilation) [rule shared with C02-m]")
+    from . import c02 as _c02
+
+    _c02.rule_shape_view(repo, rep, "C13-s")
     rep.clause("C13-r", "rank < 4 concatenations on axis 0 are shifted into 4-D index space like every non-negative axis; a time-major LSTM step reads an [n_batch, n_feature] slice; a scale-only "
                "encoded tensor carries no weight compression key (the allocator asserts that equal weight keys imply equal scale keys)")
     go = repo.mod("tflite_graph_optimiser")
